@@ -64,12 +64,15 @@ def roundtrip(p, case, part, extra_key=None):
 
 
 # ----------------------------------------------------------------------------- case builders
-def build_case(case):
+def build_case(case, p=None):
     import rv.api as rv
 
     kind = case["kind"]
-    p = rv.Project()
-    if kind == "module":
+    p = p or rv.Project()
+    if kind == "combo":
+        for part in case["parts"]:
+            build_case(part, p)
+    elif kind == "module":
         for tkey, devs in case["mods"]:
             p.attach_module(deviate.build(tkey, devs))
         for f, t in case.get("links", []):
@@ -166,6 +169,8 @@ def case_key(case):
         return {"field": case["n"]}
     if k == "name":
         return {"which": case["which"]}
+    if k == "combo":
+        return {"combo": "+".join(sorted(str(next(iter(case_key(c).values()), c["kind"])) for c in case["parts"]))}
     return {}
 
 
@@ -195,6 +200,14 @@ def pattern_cases(thorough):
     for k, vals in attrs.items():
         for v in vals:
             cases.append({"kind": "patterns", "slots": [{"t": "pattern", "tracks": 1, "lines": 1, k: v}]})
+    # k = 2: every pair of values of two DIFFERENT pattern attributes (a reader/writer that treats one attribute
+    # depending on another -- e.g. an icon under the "no icon" flag -- is only visible in pairs)
+    names = list(attrs)
+    for i, k1 in enumerate(names):
+        for k2 in names[i + 1:]:
+            for v1 in attrs[k1][1:]:
+                for v2 in attrs[k2][1:]:
+                    cases.append({"kind": "patterns", "slots": [{"t": "pattern", "tracks": 1, "lines": 1, k1: v1, k2: v2}]})
     for k, vals in {"source": [0, 1, 255, U32_MAX], "x": I32, "y": I32, "flags_PFFF": [0, 1, 3, U32_MAX]}.items():
         for v in vals:
             cases.append({"kind": "patterns", "slots": [{"t": "pattern", "tracks": 1, "lines": 1},
@@ -225,6 +238,22 @@ def all_cases(ctx):
     for which in ("project", "module", "midi_out", "pattern", "metamodule_inner"):
         for s in name_alphabet() + ["", "Project", "näme", "a" * 200]:
             cases.append({"kind": "name", "which": which, "s": s})
+    # k = 2 at project level: two header fields, and a header field with a (non-ASCII / long / empty) name
+    fields = list(PROJECT_FIELDS)
+    two = {n: [v for v in (PROJECT_FIELDS[n][1], PROJECT_FIELDS[n][-1])] for n in fields}
+    two["based_on_version"] = PROJECT_FIELDS["based_on_version"]
+    for i, a in enumerate(fields):
+        for b in fields[i + 1:]:
+            for va in two[a][:2] if not ctx.thorough else two[a]:
+                for vb in two[b][:2] if not ctx.thorough else two[b]:
+                    cases.append({"kind": "combo", "parts": [{"kind": "field", "n": a, "v": va},
+                                                             {"kind": "field", "n": b, "v": vb}]})
+    for a in fields:
+        for va in two[a]:
+            for which in ("project", "module", "pattern"):
+                for sname in ("é", "a" * 30 + "中", "", "näme 中😀"):
+                    cases.append({"kind": "combo", "parts": [{"kind": "field", "n": a, "v": va},
+                                                             {"kind": "name", "which": which, "s": sname}]})
     cases += pattern_cases(ctx.thorough)
     for counts in ([2, 5], [5, 2], [0, 96], [96, 0], [1, 2, 3], [3, 3]):
         cases.append({"kind": "metamodules", "counts": counts})
